@@ -74,6 +74,28 @@ def rules(ck, P):
                 toks.add(ir.strip(n["recv"])["v"])
     ck.check(toks == TOKENS, "R-TOKENS", mod, "literal tokens matched by the parser are exactly the documented alphabet %s" % sorted(TOKENS),
              "token alphabet differs: extra %s, missing %s" % (sorted(toks - TOKENS), sorted(TOKENS - toks)), ir.loc(b))
+    # character classes: the VPL alphabet is ASCII — every class predicate is an is_ascii_* test, a literal set, or one of nom's ASCII
+    # class combinators; a Unicode classifier (char::is_alphanumeric, ..) widens the language of bare values / identifiers
+    ASCII_NOM = ("alphanumeric0", "alphanumeric1", "alpha0", "alpha1", "digit0", "digit1", "hex_digit0", "hex_digit1", "multispace0", "multispace1",
+                 "space0", "space1", "line_ending", "newline", "tab", "crlf")
+    uni, n_cls = [], 0
+    for fq in seen:
+        fb = P.fn(fq)
+        for n in ir.walk_nodes(fb["body"]):
+            q = (n.get("q") or "")
+            if n.get("k") == "mcall" and q.startswith("char::is_"):
+                n_cls += 1
+                if not n["name"].startswith("is_ascii_"):
+                    uni.append("%s at %s" % (q, ir.loc(n)))
+            if n.get("k") in ("call", "path") and q.startswith("nom::character::") and q.rsplit("::", 1)[-1] not in ("char", "one_of", "none_of", "anychar", "satisfy"):
+                n_cls += 1
+                if q.rsplit("::", 1)[-1] not in ASCII_NOM or "::unicode::" in q:
+                    uni.append("%s at %s" % (q, ir.loc(n)))
+            if n.get("k") in ("call", "path") and q.endswith(("character::complete::anychar", "character::streaming::anychar")):
+                uni.append("%s at %s" % (q, ir.loc(n)))
+    ck.anchor("R-TOKENS", "character class tests in the parser", n_cls, 4)
+    ck.check(not uni, "R-TOKENS", mod + "|ascii-classes", "every character class of the parser is ASCII (is_ascii_* tests, literal sets, nom's ASCII classes): %d class test(s)" % n_cls,
+             "the parser classifies characters with %s: text outside the documented VPL alphabet (non-ASCII letters or digits in bare values / identifiers) is accepted" % uni[:3], ir.loc(b))
     # escape table of quoted strings: value(X, tag(Y)) pairs
     ps = [x for x in P.bodies if x["q"].endswith("vpl::parser::parse_string")]
     if ps:
